@@ -89,7 +89,9 @@ fn check_key(ks: Option<std::ops::Range<usize>>, k: &str, p: &str, text: &str, b
     }
 }
 
-fn spans_tbl(t: &Table, path: &str, out: &mut Vec<String>, text: &str, bad: &mut Vec<String>) {
+fn spans_tbl(t: &Table, path: &str, out: &mut Vec<String>, text: &str, bad: &mut Vec<String>, anc: Option<std::ops::Range<usize>>) {
+    // the nearest enclosing table that has a span of its own (dotted / implicit tables have none)
+    let anc = t.span().or(anc);
     for (k, i) in t.iter() {
         let p = format!("{path}/{}", hex(k.as_bytes()));
         let ks = t.key(k).and_then(|k| k.span());
@@ -97,16 +99,18 @@ fn spans_tbl(t: &Table, path: &str, out: &mut Vec<String>, text: &str, bad: &mut
         check_key(ks, k, &p, text, bad);
         match i {
             Item::Value(v) => {
-                check_nested(t.span(), v.span(), &p, bad);
+                check_nested(anc.clone(), v.span(), &p, bad);
+                check_nested(anc.clone(), t.key(k).and_then(|k| k.span()), &p, bad);
                 spans_val(v, &p, out, text, bad)
             }
-            Item::Table(s) => spans_tbl(s, &p, out, text, bad),
+            // a dotted table belongs to the section it was written in; a header table is located by its own header
+            Item::Table(s) => spans_tbl(s, &p, out, text, bad, if s.is_dotted() { anc.clone() } else { None }),
             Item::ArrayOfTables(a) => {
                 for (n, s) in a.iter().enumerate() {
                     let q = format!("{p}/{n}");
                     out.push(format!("{q}=-:{}", sp(s.span())));
                     check_nested(a.span(), s.span(), &q, bad);
-                    spans_tbl(s, &q, out, text, bad);
+                    spans_tbl(s, &q, out, text, bad, None);
                 }
             }
             Item::None => {}
@@ -288,7 +292,7 @@ pub fn run_spans(line: &str) -> String {
     let mut out = vec![];
     let mut bad = vec![];
     out.push(format!("root=-:{}", sp(im.as_table().span())));
-    spans_tbl(im.as_table(), "", &mut out, &text, &mut bad);
+    spans_tbl(im.as_table(), "", &mut out, &text, &mut bad, None);
     // bounds / boundaries of every span
     for e in &out {
         for part in e.split('=').nth(1).unwrap().split(':') {
